@@ -1290,10 +1290,11 @@ func (fc *funcContext) translateConversion(expr ast.Expr, desiredType types.Type
 		// type iPtr *int; var c int = 42; println((iPtr)(&c));
 		// TODO(nevkontakte): Are there any other cases that fall into this case?
 		exprTypeElem := exprType.Underlying().(*types.Pointer).Elem()
-		ptrVar := fc.newLocalVariable("_ptr")
-		getterConv := fc.translateConversion(fc.setType(&ast.StarExpr{X: fc.newIdent(ptrVar, exprType)}, exprTypeElem), t.Elem())
+		// The accessors get the source pointer as an argument rather than through a local variable of the
+		// enclosing function, which the next conversion at this place would overwrite.
+		getterConv := fc.translateConversion(fc.setType(&ast.StarExpr{X: fc.newIdent("$p", exprType)}, exprTypeElem), t.Elem())
 		setterConv := fc.translateConversion(fc.newIdent("$v", t.Elem()), exprTypeElem)
-		return fc.formatExpr("(%1s = %2e, new %3s(function() { return %4s; }, function($v) { %1s.$set(%5s); }, %1s.$target))", ptrVar, expr, fc.typeName(desiredType), getterConv, setterConv)
+		return fc.formatExpr("$pointerConversion(%e, %s, function($p) { return %s; }, function($p, $v) { $p.$set(%s); })", expr, fc.typeName(desiredType), getterConv, setterConv)
 
 	case *types.Interface:
 		if types.Identical(exprType, types.Typ[types.UnsafePointer]) {
